@@ -77,6 +77,9 @@ class SymList:
         self.body = body
         self.cond = cond        # filter condition (None = every index)
 
+    oneshot = False       # made by a generator expression: the second consumer finds it empty
+    consumed = False
+
     def guarded_body(self, zero=0):
         if self.cond is None:
             return self.body
@@ -330,6 +333,7 @@ class LineEval:
         self.year = year
         self.fr = fr                  # owning FormRec
         self.assume = assume or {}
+        self.noassume = 0
         self.line_oracle = line_oracle
         self.fold = fold
 
@@ -409,7 +413,7 @@ class LineEval:
             return self.decide(v, node, rel)
         if isinstance(v, SymList):
             if v.cond is not None:
-                return self.decide(E('exists_n', v.idx, v.cond, ty='bool'), node, rel)
+                return self.truth(self.quant('exists_n', v.idx, v.cond), node, rel)
             return self.decide(E('gt', v.count, 0, ty='bool'), node, rel)
         if isinstance(v, (Rec, Closure, ClassV, EnumV, EnumMember, ModuleV, Builtin, ExternalV, SolverTok, InputsTok, ValuesTok)):
             return True
@@ -674,7 +678,7 @@ class LineEval:
 
     def for_(self, st, ctx):
         rel = ctx.rel
-        it = self.ev(st.iter, ctx)
+        it = self.consume(self.ev(st.iter, ctx), st, rel)
         seq = None
         if isinstance(it, (list, tuple, str, range)):
             seq = list(it)
@@ -686,6 +690,9 @@ class LineEval:
             seq = [it.member(m) for m in it.members]          # iterating an enumeration class yields its members in definition order
         elif isinstance(it, (InputsTok, ValuesTok)):
             self.event('access', f'iteration over the {"input" if isinstance(it, InputsTok) else "value"} accessor', st, rel)
+            return
+        elif isinstance(it, FormsMapTok):
+            self.event('access', 'iteration over the set of forms the solver has loaded so far (it grows during the solve)', st, rel)
             return
         if seq is not None:
             if len(seq) > 80:
@@ -718,6 +725,28 @@ class LineEval:
         count = rng.hi
         idx = E('idx', st.target.id, count, ty='int')
         before = dict(_flatten_env(ctx.env))
+        sym_final = None
+        if any(':*.' in a for a in self.assume) and not self.noassume:
+            # "some copy's line has this value" is not "every copy's line has it": the body is first run without the
+            # assumption, to see which variables merely keep the value of the last round
+            saved = [dict(f) for f in ctx.env]
+            n_reads, n_events = len(self.path.reads), len(self.path.events)
+            self.noassume += 1
+            self.loop_depth += 1
+            try:
+                lb0 = LoopBody(self, ctx, idx, count)
+                lb0.run(st.body, st.target.id)
+                sym_final = lb0.final
+            except Exception:
+                sym_final = None
+            finally:
+                self.noassume -= 1
+                self.loop_depth -= 1
+                for f, sv in zip(ctx.env, saved):
+                    f.clear()
+                    f.update(sv)
+                del self.path.reads[n_reads:]
+                del self.path.events[n_events:]
         lb = LoopBody(self, ctx, idx, count)
         self.loop_depth += 1
         try:
@@ -726,8 +755,8 @@ class LineEval:
             self.loop_depth -= 1
         # early exits, in body order
         for (cond, kind, payload, node) in lb.exits:
-            ex = E('exists_n', idx, cond, ty='bool')
-            if self.decide(ex, node, rel):
+            ex = self.quant('exists_n', idx, cond)
+            if self.truth(ex, node, rel):
                 if kind == 'raise':
                     payload.in_loop = True
                     raise _RaiseSignal(payload)
@@ -741,10 +770,46 @@ class LineEval:
             if delta is not None and old is not _MISSING:
                 tot = E('sumn', count, idx, delta, ty=_num_ty(delta))
                 self._set_var(ctx, name, self.binop(ast.Add(), old, tot, st, rel))
+            elif sym_final is not None and name in sym_final and old is not _MISSING and _delta(old, sym_final[name]) is None \
+                    and _latch(sym_final[name], old, st.target.id) is None and _mentions_assumed(sym_final[name], self.assume):
+                # the value of the last round, computed from the assumed line: nothing is known about the last copy
+                self._set_var(ctx, name, E('loopval', idx, sym_final[name], old, ty=_ty(sym_final[name])))
             else:
-                # e.g. flag = True inside the loop: value is ite(exists.., new, old)
-                self._set_var(ctx, name, E('loopval', idx, newv, old if old is not _MISSING else None, ty=_ty(newv)))
+                lat = _latch(newv, old, st.target.id) if old is not _MISSING else None
+                if lat is None and old is not _MISSING and not isinstance(newv, E) and sym_final is not None and name in sym_final:
+                    # under the assumption the body assigns a constant in every round
+                    lat = (True, newv)
+                if lat is not None:
+                    # a latch: `if cond: flag = X` keeps the earlier value unless some round sets the constant X
+                    g, x = lat
+                    ex = self.quant('exists_n', idx, g)
+                    if x is True and old is False:
+                        val = ex
+                    elif ex is True or ex is False:
+                        val = x if ex else old
+                    else:
+                        val = E('ite', ex, x, old, ty=_ty(x))
+                    self._set_var(ctx, name, val)
+                else:
+                    # a plain assignment in the body: the value of the last round
+                    self._set_var(ctx, name, E('loopval', idx, newv, old if old is not _MISSING else None, ty=_ty(newv)))
         self.block(st.orelse, ctx)
+
+    def quant(self, op, idx, cond):
+        """exists_n / forall_n over the rounds of a per-instance loop, with the constant cases folded: some round
+        satisfies True exactly when the loop runs at all."""
+        count = idx.args[1]
+        if op == 'exists_n':
+            if cond is True:
+                return E('lt', 0, count, ty='bool')
+            if cond is False:
+                return False
+        else:
+            if cond is True:
+                return True
+            if cond is False:
+                return E('not', E('lt', 0, count, ty='bool'), ty='bool')
+        return E(op, idx, cond, ty='bool')
 
     def _set_var(self, ctx, name, v):
         for frame in reversed(ctx.env):
@@ -835,6 +900,8 @@ class LineEval:
             sym = True
             if spec:
                 parts.append(E('format', val, spec, ty='str'))
+            elif isinstance(val, E) and val.op == 'fstr' and v.conversion == -1:
+                parts.extend(val.args)          # a formatted text inside a formatted text: one flat sequence of parts
             else:
                 parts.append(val)
         if not sym:
@@ -951,6 +1018,8 @@ class LineEval:
         if isinstance(a, (InputsTok, ValuesTok)) or isinstance(b, (InputsTok, ValuesTok)):
             self.event('access', f'the accessor is used in a comparison/membership test ({unparse(n)})', n, rel)
             return Top('accessor compare')
+        if isinstance(a, FormsMapTok) or isinstance(b, FormsMapTok):
+            self.event('access', f'the set of forms the solver has loaded so far is consulted ({unparse(n)}): it grows during the solve, so the answer depends on the attempt order', n, rel)
         if op in ('in', 'notin'):
             if isinstance(b, (list, tuple)) and isinstance(a, E) and a.ty == 'enum' and a.meta is not None:
                 # a list may deliberately mix members of several enumerations; only the
@@ -1094,7 +1163,7 @@ class LineEval:
         if res.absent_form:
             # the solver aborts the whole solve: "Form X is not supported"
             self.raise_('NotImplementedError', n, rel, f'form {res.form_name} is not in the {self.year} catalogue')
-        if atomkey in self.assume:
+        if atomkey in self.assume and not (self.noassume and self.loop_depth > 0):
             return self.assume[atomkey]
         ty, meta = None, None
         if res.decl is not None:
@@ -1139,6 +1208,9 @@ class LineEval:
         if isinstance(base, (InputsTok, ValuesTok)):
             self.event('access', f'attribute .{attr} of the accessor', n, rel)
             return Top('accessor attribute')
+        if isinstance(base, FormsMapTok):
+            self.event('access', f'.{attr} of the set of forms the solver has loaded so far (it grows during the solve)', n, rel)
+            return Top('forms map attribute')
         if isinstance(base, SolverTok):
             if attr == 'forms':
                 return FormsMapTok()
@@ -1297,6 +1369,14 @@ class LineEval:
             if isinstance(a, (InputsTok, ValuesTok)):
                 self.event('access', f'{name}() applied to the accessor', n, rel)
                 return Top('accessor')
+            if isinstance(a, FormsMapTok):
+                self.event('access', f'{name}() applied to the set of forms the solver has loaded so far (it grows during the solve)', n, rel)
+                return Top('forms map')
+        if name in ('sum', 'any', 'all', 'list', 'tuple', 'sorted', 'max', 'min', 'set', 'dict', 'enumerate', 'zip', 'reversed'):
+            args = [self.consume(a, n, rel) for a in args]
+            if name in ('list', 'tuple', 'sorted') and args and isinstance(args[0], SymList) and args[0].oneshot:
+                a0 = args[0]
+                args[0] = SymList(a0.count, a0.idx, a0.body, a0.cond)      # a list made from it can be walked again
         if name == 'range':
             if any(isinstance(a, E) for a in args):
                 if len(args) == 1:
@@ -1391,8 +1471,7 @@ class LineEval:
                 b = seq.body
                 if seq.cond is not None:
                     b = E('and', seq.cond, b, ty='bool') if name == 'any' else E('or', E('not', seq.cond, ty='bool'), b, ty='bool')
-                q = E('exists_n' if name == 'any' else 'forall_n', seq.idx, b, ty='bool')
-                return q
+                return self.quant('exists_n' if name == 'any' else 'forall_n', seq.idx, b)
         if name == 'print':
             self.event('effect', 'print() inside a definition', n, rel)
             return None
@@ -1425,17 +1504,80 @@ class LineEval:
         return self._comp(n, ctx)
 
     def x_GeneratorExp(self, n, ctx):
-        return self._comp(n, ctx)
+        r = self._comp(n, ctx)
+        if isinstance(r, SymList):
+            r.oneshot = True
+            r.made_at = n
+        return r
+
+    def consume(self, v, n, rel):
+        """a generator can be walked once: whoever comes second sees an empty sequence"""
+        if isinstance(v, SymList) and v.oneshot:
+            if v.consumed:
+                self.event('exhausted', f'the generator made at line {getattr(v.made_at, "lineno", "?")} has already been consumed; `{unparse(n, 60)}` sees an empty sequence', n, rel)
+                return []
+            v.consumed = True
+        return v
 
     def x_SetComp(self, n, ctx):
         return self._comp(n, ctx)
+
+    def x_DictComp(self, n, ctx):
+        rel = ctx.rel
+        if len(n.generators) != 1 or not isinstance(n.generators[0].target, ast.Name):
+            self.imprecise('dict comprehension with several generators or a structured target', n, rel)
+            return Top('dict comprehension')
+        g = n.generators[0]
+        it = self.consume(self.ev(g.iter, ctx), n, rel)
+        if isinstance(it, SymRange):
+            # the key and value expressions are evaluated once with the index hole, so that what they read is recorded and
+            # resolved; the mapping itself (later keys replace earlier equal ones) is not modelled
+            idx = E('idx', g.target.id, it.hi, ty='int')
+            ctx.env.append({g.target.id: idx})
+            self.loop_depth += 1
+            self.nofork += 1
+            try:
+                kx = self.nofork_expr(n.key, ctx)
+                self.nofork_expr(n.value, ctx)
+                reads_in_key = []
+                _walk_e(kx, lambda x: reads_in_key.append(x) if x.op in ('i', 'v') else None)
+                if reads_in_key:
+                    self.event('collapse', f'the copies are put into a mapping keyed by {kx!r}, a value read from the copy: two copies with equal keys become one entry holding '
+                                           'the later copy\'s value, so amounts are lost and which one survives depends on the numbering', n, rel)
+                for cnd in g.ifs:
+                    self.nofork_cond(cnd, ctx)
+            finally:
+                self.nofork -= 1
+                self.loop_depth -= 1
+                ctx.env.pop()
+            self.imprecise('dict comprehension over a symbolic range (a mapping keyed by computed values: equal keys collapse)', n, rel)
+            return Top('dict comprehension')
+        seq = list(it) if isinstance(it, (list, tuple, str, range)) else list(it.keys()) if isinstance(it, dict) else None
+        if seq is None:
+            self.imprecise('dict comprehension over a symbolic sequence', n, rel)
+            return Top('dict comprehension')
+        out = {}
+        ctx.env.append({})
+        try:
+            for item in seq[:200]:
+                self.assign(g.target, item, ctx)
+                if all(self.truth(self.ev(c, ctx), c, rel) for c in g.ifs):
+                    k = self.ev(n.key, ctx)
+                    val = self.ev(n.value, ctx)
+                    if isinstance(k, E):
+                        self.imprecise('dict comprehension with a symbolic key', n, rel)
+                        return Top('dict comprehension')
+                    out[k] = val
+        finally:
+            ctx.env.pop()
+        return out
 
     def _comp(self, n, ctx):
         rel = ctx.rel
         if len(n.generators) != 1:
             self.imprecise('nested comprehension', n, rel)
         g = n.generators[0]
-        it = self.ev(g.iter, ctx)
+        it = self.consume(self.ev(g.iter, ctx), n, rel)
         if isinstance(it, SymRange) and isinstance(g.target, ast.Name) and len(n.generators) == 1:
             idx = E('idx', g.target.id, it.hi, ty='int')
             ctx.env.append({g.target.id: idx})
@@ -1454,10 +1596,10 @@ class LineEval:
                 self.loop_depth -= 1
                 ctx.env.pop()
             return SymList(it.hi, idx, body, cond)
-        if isinstance(it, SymList) and isinstance(g.target, ast.Name) and len(n.generators) == 1 and isinstance(it.body, E) and it.body.op == 'idx':
-            # iterating over a (filtered) list of instance numbers
+        if isinstance(it, SymList) and isinstance(g.target, ast.Name) and len(n.generators) == 1:
+            # iterating over a (filtered) list of instance numbers, or of values computed from them
             idx = it.idx
-            ctx.env.append({g.target.id: idx})
+            ctx.env.append({g.target.id: it.body})
             self.loop_depth += 1
             self.nofork += 1
             try:
@@ -1483,6 +1625,9 @@ class LineEval:
         elif isinstance(it, (InputsTok, ValuesTok)):
             self.event('access', 'iteration over the accessor', n, rel)
             return Top('accessor iteration')
+        elif isinstance(it, FormsMapTok):
+            self.event('access', 'iteration over the set of forms the solver has loaded so far (it grows during the solve)', n, rel)
+            return Top('forms map iteration')
         if seq is None:
             self.imprecise('comprehension over a symbolic sequence', n, rel)
             return Top('comprehension')
@@ -1688,6 +1833,52 @@ def _flatten_env(env):
     for frame in env:
         out.update(frame)
     return out.items()
+
+
+def _latch(new, old, loopvar):
+    """new == ite(g1, X, ite(g2, X, ... old)) with one constant X that does not depend on the round -> (g1 or g2 ..., X)"""
+    conds = []
+    x = _MISSING
+    cur = new
+    while isinstance(cur, E) and cur.op == 'ite' and cur.args[2] is not old:
+        if isinstance(cur.args[1], E) or (x is not _MISSING and cur.args[1] is not x and cur.args[1] != x):
+            return None
+        x = cur.args[1]
+        conds.append(cur.args[0])
+        cur = cur.args[2]
+    if not (isinstance(cur, E) and cur.op == 'ite' and cur.args[2] is old):
+        return None
+    if isinstance(cur.args[1], E) or (x is not _MISSING and cur.args[1] != x):
+        return None
+    x = cur.args[1]
+    conds.append(cur.args[0])
+    g = conds[0]
+    for c in conds[1:]:
+        g = E('or', g, c, ty='bool')
+    return g, x
+
+
+def _walk_e(e, fn):
+    if isinstance(e, E):
+        fn(e)
+        for a in e.args:
+            _walk_e(a, fn)
+    elif isinstance(e, (list, tuple)):
+        for a in e:
+            _walk_e(a, fn)
+
+
+def _mentions_assumed(e, assume):
+    if isinstance(e, E):
+        if e.op in ('i', 'v'):
+            import re as _re
+            a = e.op + ':' + _re.sub(r':(\{[^}]*\}|\d+)\.', ':*.', str(e.args[0]))
+            if a in assume:
+                return True
+        return any(_mentions_assumed(a, assume) for a in e.args)
+    if isinstance(e, (list, tuple)):
+        return any(_mentions_assumed(a, assume) for a in e)
+    return False
 
 
 def _delta(old, new):
